@@ -19,7 +19,9 @@
 (***************************************************************************)
 EXTENDS AppSeriesProps
 
-CONSTANTS CMax,      \* largest concurrency value
+CONSTANTS NP,        \* number of pipelines in the series   (design check; np of a recorded trace is its own)
+          TT,        \* tasks per pipeline
+          CMax,      \* largest concurrency value
           XUse,      \* exception classes the environment raises (subset of XC)
           UecVals,   \* codes the embedder may pass to update_exit_code
           MaxStop, MaxConc, MaxRaise, MaxUec, MaxRun2    \* budgets of environment disturbances
@@ -28,7 +30,7 @@ VARIABLES
   ast,    \* Application._state: ready / running / stopping / stopped
   apc,    \* program counter of run(): idle / pick / inpipe / done
   cur,    \* Application._current_pipeline (0 = None)
-  nxt,    \* next index of "for pipeline in self._pipeline_series.pipelines" (NP+1: loop left)
+  nxt,    \* next index of "for pipeline in self._pipeline_series.pipelines" (np+1: loop left)
   pst,    \* per pipeline: new / running / stopping / crashed / returned / failed / skipped
   perr,   \* exception class process() of the pipeline will raise ("none")
   dead,   \* dead[p]: items whose task raised (their worker is gone)
@@ -42,7 +44,8 @@ vars    == <<cfgvars, obsvars, ctlvars, budvars>>
 
 NOP == [e |-> "nop"]
 
-InitWith(skp0, reg0, kk0, pc0) ==
+InitWith(n, t, skp0, reg0, kk0, pc0) ==
+  /\ np = n /\ tt = t
   /\ skp = skp0 /\ reg = reg0 /\ kk = kk0
   /\ ObsInit(pc0)
   /\ ast = "ready" /\ apc = "idle" /\ cur = 0 /\ nxt = 0
@@ -51,8 +54,8 @@ InitWith(skp0, reg0, kk0, pc0) ==
   /\ stops = 0 /\ concs = 0 /\ raises = 0 /\ uecs = 0 /\ run2s = 0
 
 \* design check: every configuration of flags; item counts K or K-1; initial concurrency 1 or 2
-Init == \E s \in [Pipes -> BOOLEAN], r \in [Pipes -> BOOLEAN], k \in [Pipes -> {K}], c \in [Pipes -> {1}] :
-           InitWith(s, r, k, c)
+Init == \E s \in [1..NP -> BOOLEAN], r \in [1..NP -> BOOLEAN], k \in [1..NP -> {K}], c \in [1..NP -> {1}] :
+           InitWith(NP, TT, s, r, k, c)
 
 -----------------------------------------------------------------------------
 Ahead(p)   == {i \in taken[p] : st[p][i] = 0}                 \* taken from the source, not begun (queued / held)
@@ -78,21 +81,21 @@ RunRejected ==
 
 \* "if self._state == stopping and pipeline.skippable: continue"
 PickSkip ==
-  /\ apc = "pick" /\ nxt <= NP /\ ast = "stopping" /\ skp[nxt]
+  /\ apc = "pick" /\ nxt <= np /\ ast = "stopping" /\ skp[nxt]
   /\ cur' = nxt /\ nxt' = nxt + 1 /\ pst' = [pst EXCEPT ![nxt] = "skipped"]
   /\ Obs(NOP)
   /\ UNCHANGED <<ast, apc, perr, dead, code, sconc, cfgvars, budvars>>
 
 \* pipeline_begin notification; pipeline.process() up to its first suspension
 PickBegin ==
-  /\ apc = "pick" /\ nxt <= NP /\ ~(ast = "stopping" /\ skp[nxt])
+  /\ apc = "pick" /\ nxt <= np /\ ~(ast = "stopping" /\ skp[nxt])
   /\ cur' = nxt /\ pst' = [pst EXCEPT ![nxt] = "running"] /\ apc' = "inpipe"
   /\ Obs([e |-> "pbegin", p |-> nxt])
   /\ UNCHANGED <<ast, nxt, perr, dead, code, sconc, cfgvars, budvars>>
 
 \* loop left (exhausted or break): _current_pipeline = None; state stopping, stopped; return exit code
 Finish ==
-  /\ apc = "pick" /\ nxt > NP
+  /\ apc = "pick" /\ nxt > np
   /\ cur' = 0 /\ ast' = "stopped" /\ apc' = "done"
   /\ Obs([e |-> "ret", code |-> code])
   /\ UNCHANGED <<nxt, pst, perr, dead, code, sconc, cfgvars, budvars>>
@@ -163,7 +166,7 @@ PFail(p) ==
   /\ apc = "inpipe" /\ cur = p
   /\ \/ pst[p] = "crashed"
      \/ pst[p] = "stopping" /\ perr[p] # "none" /\ Live(p) = {}
-  /\ pst' = [pst EXCEPT ![p] = "failed"] /\ apc' = "pick" /\ nxt' = NP + 1
+  /\ pst' = [pst EXCEPT ![p] = "failed"] /\ apc' = "pick" /\ nxt' = np + 1
   /\ code' = Merge(code, Code(perr[p]))
   /\ Obs(IF perr[p] = "U" THEN [e |-> "crashmsg"] ELSE NOP)
   /\ UNCHANGED <<ast, cur, perr, dead, sconc, cfgvars, budvars>>
@@ -240,7 +243,7 @@ StateOK == /\ mstate = ast
            /\ (cur # 0 /\ apc = "inpipe") => phase[cur] = "begun"
 TypeOK ==
   /\ ast \in {"ready", "running", "stopping", "stopped"} /\ apc \in {"idle", "pick", "inpipe", "done"}
-  /\ cur \in 0..NP /\ nxt \in 0..(NP + 1) /\ code \in 0..8 /\ sconc \in 0..CMax
+  /\ cur \in 0..np /\ nxt \in 0..(np + 1) /\ code \in 0..8 /\ sconc \in 0..CMax
   /\ \A p \in Pipes : pst[p] \in {"new", "running", "stopping", "crashed", "returned", "failed", "skipped"}
   /\ \A p \in Pipes : perr[p] \in XC \cup {"none"}
 =============================================================================
